@@ -142,6 +142,15 @@ func countCase(run *common.Run, r resultT, cls string) {
 		run.Hit("kind:" + c.VT.Kind.String())
 		return
 	}
+	if c.Dir == "retain" {
+		run.Hit("retain:" + c.Mode)
+		run.Hit("retain-via:" + c.Via)
+		run.Hit("retain-caller:" + c.Caller)
+		if c.Mode == "reenter" {
+			run.Hit(fmt.Sprintf("retain-depth:%d", c.Depth))
+		}
+		return
+	}
 	run.Hit("ctx:" + c.Ctx)
 	run.Hit(fmt.Sprintf("params:%d", len(c.Sig.In)))
 	run.Hit(fmt.Sprintf("results:%d", len(c.Sig.Out)))
